@@ -1103,7 +1103,8 @@ HLPread(accrec_t *access_rec, int32 length, void *datap)
     else if (length < 0)
         HGOTO_ERROR(DFE_RANGE, FAIL);
 
-    if (access_rec->posn + length > info->length)
+    /* (compared without forming posn + length, which overflows int32 for a length near INT32_MAX) */
+    if (length > info->length - access_rec->posn)
         length = info->length - access_rec->posn;
 
     /* nothing to read at or beyond the end of the element; a zero length
